@@ -129,6 +129,11 @@ theorem history_is_fresh_object (uris : List Str) (ops : List Op) :
   rw [keys_run] at h
   exact h
 
+/-- Iteration and length after any history: the URIs added and not removed, each once, in the order in which they (last) entered. -/
+theorem iteration_after_history (uris : List Str) (ops : List Op) :
+    keys (run (mk uris) ops) = ops.foldl absStep (keys (mk uris)) :=
+  keys_run (mk uris) ops
+
 /-- Corollary for lookups. -/
 theorem lookup_after_history (uris : List Str) (ops : List Op) (key : Str) :
     getItem (run (mk uris) ops) key = getItem (ofKeys (ops.foldl absStep (keys (mk uris)))) key := by
